@@ -659,6 +659,10 @@ class Interp:
                 if "DEC" in r:
                     out.add("DEC")
                 return [frozenset(out)]
+            if m == "join" and isinstance(f.value, ast.Constant) and f.value.value == "" and len(c.args) == 1 and isinstance(c.args[0], ast.Call) and norm(c.args[0].func) in ("takewhile", "itertools.takewhile") and len(c.args[0].args) == 2:
+                # "".join(takewhile(pred, s)): the longest prefix of s whose characters satisfy pred (possibly empty)
+                dec = {"DEC"} if norm(c.args[0].args[0]) == "str.isdecimal" else set()
+                return [EMPTY_STR, frozenset({"STR", "NOTNONE", "NE"} | dec)]
             if m in ("replace", "lower", "upper", "format", "join", "isoformat"):
                 return [F("STR", "NOTNONE")]
             if m in ("find", "index", "count", "isdigit", "isdecimal", "isalpha", "startswith", "split", "items", "keys", "values", "append", "debug"):
